@@ -35,17 +35,20 @@ pub fn ensure_ram_fn(
                 .evaluate_expression(arg, false)?
                 .and_then(|d| d.try_as_i64());
             let val = address.and_then(|a| {
-                let len = if self.word { 2 } else { 1 };
-                let bytes = self.memory_accessor.lock().unwrap().read(a as u16, len);
+                // (byte by byte: the word at $ffff continues at $0000 instead of beyond the end of memory)
+                let mut accessor = self.memory_accessor.lock().unwrap();
+                let lo = accessor.read(a as u16, 1).first().copied();
                 if self.word {
-                    let lo = bytes.first();
-                    let hi = bytes.get(1);
+                    let hi = accessor
+                        .read((a as u16).wrapping_add(1), 1)
+                        .first()
+                        .copied();
                     match (lo, hi) {
-                        (Some(lo), Some(hi)) => Some(256 * (*hi as i64) + (*lo as i64)),
+                        (Some(lo), Some(hi)) => Some(256 * (hi as i64) + (lo as i64)),
                         _ => None,
                     }
                 } else {
-                    bytes.first().map(|b| *b as i64)
+                    lo.map(|b| b as i64)
                 }
             });
             Ok(val.map(SymbolData::Number))
